@@ -20,6 +20,7 @@ import vlib
 SIG = A.SIG
 KEY_BOOT = "boot-failure-during-halt"
 KEY_RX = "reexec-fork-reap-race"
+KEY_GTQ = "quick-shutdown-gthread-joins-threads"
 
 BINDS = [
     ["127.0.0.1:8000"],
@@ -251,7 +252,7 @@ def describe(case):
 
 def run_sim(ctx):
     cases = fixed_cases()
-    n_random = 500 if ctx.quick() else 6000
+    n_random = 1200 if ctx.quick() else 12000
     for _ in range(n_random):
         cases.append(gen_random(ctx.rng))
     corr = []
@@ -318,6 +319,7 @@ def shrink(case, cls):
 def run(ctx):
     ok = ctx.build()
     bad = run_sim(ctx)
+    run_real(ctx)
     ctx.cov["rule"] = ("shutdown schedules for the real Arbiter.run() on the simulated kernel: a pool is built (boot, optional USR2 / deaths / "
                        "TTIN / TTOU / HUP), TERM / INT / QUIT is queued, then deaths with any status, SIGCHLD and time are interleaved with "
                        "the master's steps until it exits (tail: nobody exits, or every told worker exits during the naps); configurations "
@@ -326,6 +328,13 @@ def run(ctx):
 
 
 def replay(rep):
+    if rep.get("kind") == "real":
+        scn = rep["scenario"]
+        obs = real_case(scn)
+        print("observed:", {k: v for k, v in obs.items() if k != "scn"})
+        fs = judge_real(scn, obs)
+        print("property failures:", fs)
+        return 1 if fs else 0
     case = dict(rep["case"])
     case["script"] = [tuple(x) for x in case.pop("schedule")]
     w = run_case(case)
@@ -334,3 +343,259 @@ def replay(rep):
     fs = judge(case, w)
     print("oracle failures:", fs)
     return 1 if fs else 0
+
+
+# =====================================================================================================================
+# REAL processes: one connection in a chosen phase when the signal reaches the master
+# =====================================================================================================================
+import signal as _signal
+import threading
+import time
+
+import lib_arb2_real as R
+
+CLS_COQ = {"sync": "Sync", "gthread": "GThread", "gevent": "GEvent", "eventlet": "Eventlet"}
+PHASE_COQ = {"idle": "CIdle", "head": "CHead", "app": "CApp", "resp": "CResp", "keep": "CKeep"}
+T = 256
+PRE = 0.4          # seconds between the request and the signal (phase app)
+LATE = 1.5         # seconds after the signal at which the client sends what it still owes
+KEEPALIVE = 8
+
+
+def scenario(cls, phase, app, sig, graceful=4, bind="unix"):
+    """app: 'finish' (needs 1.2 s), 'overrun' (graceful + 3 s), 'never' (60 s)"""
+    d = {"finish": 1.2, "overrun": graceful + 3.0, "never": 60.0}[app]
+    return {"cls": cls, "phase": phase, "app": app, "d": d, "sig": sig, "graceful": graceful, "bind": bind}
+
+
+def real_case(scn):
+    """-> observation dict"""
+    srv = R.Server(worker_class=scn["cls"], workers=1, graceful=scn["graceful"], bind=scn["bind"], keepalive=KEEPALIVE)
+    obs = {"scn": scn}
+    try:
+        srv.start()
+        worker0 = srv.children()
+        c = R.Client(srv, timeout=scn["graceful"] * 2 + 20).connect()
+        ph = scn["phase"]
+        d = scn["d"]
+        later = None
+        if ph == "idle":
+            time.sleep(0.3)
+            later = R.Client.request(d=0)
+        elif ph == "head":
+            req = R.Client.request(d=0)
+            c.send(req[:-2])
+            time.sleep(0.3)
+            later = req[-2:]
+        elif ph == "app":
+            c.send(R.Client.request(d=d))
+            time.sleep(PRE)
+        elif ph == "resp":
+            c.send(R.Client.request(w=d))
+            c.read_until(lambda b: b"marker=" in b, time.time() + 10)
+        elif ph == "keep":
+            c.send(R.Client.request(d=0, keepalive=True))
+            r1 = c.read_response(10)
+            obs["first"] = {"status": r1["status"], "complete": r1["complete"]}
+            c.buf = b""
+            later = R.Client.request(d=0)
+        box = {}
+
+        def waiter():
+            box["rc"], box["dt"] = srv.wait_master_exit(wait=scn["graceful"] * 2 + 15)
+        tw = threading.Thread(target=waiter)
+        srv.signal(getattr(_signal, "SIG" + scn["sig"]))
+        tw.start()
+        if later is not None:
+            time.sleep(LATE)
+            c.send(later)
+
+        def reader():
+            box["resp"] = c.read_all(scn["graceful"] * 2 + 15)
+        th = threading.Thread(target=reader)
+        th.start()
+        tw.join()
+        obs["exit_status"] = box["rc"]
+        obs["exit_after"] = round(box["dt"], 2)
+        # the processes that are left (SIGKILLed workers need a moment to disappear)
+        t0 = time.time()
+        fam = srv.family()
+        while fam and time.time() - t0 < 2.0:
+            time.sleep(0.05)
+            fam = srv.family()
+        obs["left_after"] = round(time.time() - t0, 2)
+        obs["left"] = fam
+        obs["pidfile"] = os.path.exists(srv.pidfile)
+        obs["sockfile"] = os.path.exists(srv.sock_path) if scn["bind"] == "unix" else False
+        th.join(timeout=scn["graceful"] * 2 + 20)
+        r = box.get("resp") or {"status": None, "complete": False}
+        obs["response"] = {"status": r["status"], "complete": bool(r["complete"]), "bytes": r.get("raw_len", 0),
+                           "served_by_first_worker": r.get("pid") in worker0 if r.get("pid") else None}
+        obs["client_error"] = c.err
+        obs["done"] = r["status"] == 200 and bool(r["complete"])
+        c.close()
+    except Exception as e:                       # a harness-level problem, reported as such
+        obs["harness_error"] = "%s: %s" % (type(e).__name__, e)
+        obs["log"] = srv.read_log()[-1500:]
+    finally:
+        srv.cleanup()
+    return obs
+
+
+def model_events(scn):
+    """canonical schedule of the worker model for a scenario (times in ticks)"""
+    G = scn["graceful"] * T
+    ev = []
+    if scn["sig"] != "TERM":
+        return ["WQuit"]
+    ev.append("WTerm")
+    t = 0
+    owes = scn["phase"] in ("idle", "head", "keep")
+    sent = False
+    while t < G:
+        step = 128
+        ev.append("WTick %d" % step)
+        t += step
+        if t % 256 == 0:
+            ev.append("WLoop")
+        if owes and not sent and t >= int(LATE * T):
+            ev.append("WClient")
+            sent = True
+    ev += ["WKill", "WLoop"]
+    return ev
+
+
+def model_need(scn):
+    ph = scn["phase"]
+    if ph == "app":
+        return int((scn["d"] - PRE) * T)
+    if ph == "resp":
+        return int(scn["d"] * T)
+    return 8
+
+
+def model_real_expr(scn):
+    return "wobs (wrun %d (w_init %s %s %d %d 0) [%s])" % (
+        scn["graceful"] * T, CLS_COQ[scn["cls"]], PHASE_COQ[scn["phase"]], model_need(scn), KEEPALIVE * T, "; ".join(model_events(scn)))
+
+
+def promised(scn):
+    """does the property promise a complete response?  (a request the worker has started, the application fits)"""
+    if scn["sig"] != "TERM" or scn["app"] != "finish":
+        return False
+    if scn["phase"] in ("head", "app", "resp"):
+        return True
+    return scn["phase"] == "idle" and scn["cls"] == "sync"     # accepted = inside handle(), reading
+
+
+def judge_real(scn, obs):
+    fails = []
+    if "harness_error" in obs:
+        return [("real-process run could not be carried out: %s" % obs["harness_error"], "harness")]
+    G = scn["graceful"]
+    graceful = scn["sig"] == "TERM"
+    if obs["exit_status"] != 0:
+        fails.append(("master exit status %r after SIG%s" % (obs["exit_status"], scn["sig"]), None))
+    slack = 2.5
+    prompt = 2.5
+    if obs["exit_after"] > G + slack:
+        fails.append(("master exited %.2f s after SIG%s; graceful_timeout is %d s" % (obs["exit_after"], scn["sig"], G), None))
+    elif not graceful and obs["exit_after"] > prompt:
+        # gthread: sys.exit(0) in handle_quit waits for the pool threads, the master waits graceful_timeout and kills
+        busy = scn["cls"] == "gthread" and scn["phase"] in ("app", "resp") and scn["app"] != "finish"
+        fails.append(("quick shutdown (SIG%s) took %.2f s with a %s worker whose application was busy: it waited for the request"
+                      % (scn["sig"], obs["exit_after"], scn["cls"]), KEY_GTQ if busy else None))
+    if obs["left"]:
+        fails.append(("processes %r survive the master" % (obs["left"],), None))
+    if obs["pidfile"]:
+        fails.append(("pid file still exists", None))
+    if obs["sockfile"]:
+        fails.append(("unix socket file still exists", None))
+    if promised(scn) and not obs["done"]:
+        fails.append(("the request was started before SIGTERM and needs less than graceful_timeout, but the response is %r (client error %r)"
+                      % (obs["response"], obs["client_error"]), None))
+    return fails
+
+
+QUICK_REAL = [
+    ("sync", "app", "finish", "TERM"), ("gthread", "app", "finish", "TERM"), ("gevent", "resp", "finish", "TERM"),
+    ("eventlet", "head", "finish", "TERM"), ("sync", "app", "overrun", "TERM"), ("gthread", "keep", "finish", "TERM"),
+    ("sync", "resp", "finish", "QUIT"), ("gthread", "app", "never", "INT"),
+]
+
+
+def real_scenarios(ctx):
+    if ctx.quick():
+        scns = [scenario(c, p, a, s, graceful=4, bind=("unix" if i % 4 else "tcp")) for i, (c, p, a, s) in enumerate(QUICK_REAL)]
+        # two more, chosen by the seed
+        for _ in range(2):
+            scns.append(scenario(ctx.rng.choice(list(CLS_COQ)), ctx.rng.choice(list(PHASE_COQ)), ctx.rng.choice(["finish", "finish", "overrun"]),
+                                 ctx.rng.choice(["TERM", "TERM", "QUIT"]), graceful=4, bind=ctx.rng.choice(["unix", "tcp"])))
+        return scns
+    scns = []
+    for c in CLS_COQ:
+        for p in PHASE_COQ:
+            for a in ("finish", "overrun", "never"):
+                if a != "finish" and p in ("idle", "head", "keep"):
+                    continue                       # the application time only matters once the application runs
+                for s in ("TERM", "INT", "QUIT"):
+                    if s == "INT" and a == "overrun":
+                        continue
+                    scns.append(scenario(c, p, a, s, graceful=4, bind=("tcp" if (len(scns) % 3 == 0) else "unix")))
+    return scns
+
+
+def run_real(ctx):
+    scns = real_scenarios(ctx)
+    results = [None] * len(scns)
+    par = 8
+
+    def work(i):
+        results[i] = real_case(scns[i])
+    idx = list(range(len(scns)))
+    for k in range(0, len(idx), par):
+        ths = [threading.Thread(target=work, args=(i,)) for i in idx[k:k + par]]
+        for t in ths:
+            t.start()
+        for t in ths:
+            t.join()
+    # a run that could not be carried out is repeated once, alone
+    for i, o in enumerate(results):
+        if o is None or "harness_error" in o:
+            results[i] = real_case(scns[i])
+    corr = []
+    nfail = 0
+    for scn, obs in zip(scns, results):
+        ctx.count_case(("real", tuple(sorted(scn.items()))), nontrivial=True)
+        ctx.hist("real", "%s/%s/%s/%s" % (scn["cls"], scn["phase"], scn["app"], scn["sig"]))
+        fs = judge_real(scn, obs)
+        for text, key in fs:
+            nfail += 1
+            if key == "harness":
+                ctx.broken.append(text)
+            else:
+                ctx.violation(text, {"kind": "real", "scenario": scn, "observed": obs}, key=key)
+        if "harness_error" not in obs:
+            corr.append((model_real_expr(scn), [5 if obs["done"] else 6], {"scenario": scn, "observed": obs}))
+    ctx.extra["real_runs"] = [{"scenario": "%s/%s/%s/%s/%s" % (s["cls"], s["phase"], s["app"], s["sig"], s["bind"]),
+                               "done": o.get("done"), "exit_status": o.get("exit_status"), "exit_after": o.get("exit_after"),
+                               "left": o.get("left"), "err": o.get("harness_error")} for s, o in zip(scns, results)]
+    ctx.log("ran %d real master+worker shutdowns; %d property failures" % (len(scns), nfail))
+    # the worker model's verdict for the same scenario (first component of wobs: 5 = CDone, 6 = CLost)
+    try:
+        model = ctx.coq_eval("realw", A.HEADER_STOP, [c[0] for c in corr], shard=40)
+    except vlib.BrokenTie as e:
+        ctx.broken.append("worker model evaluation: %s" % str(e)[:800])
+        return
+    diff = []
+    ctx.extra["real_model_diff"] = []
+    for m, c in zip(model, corr):
+        if (m[0] == 5) != (c[1][0] == 5):
+            diff.append((m, c[2]))
+            ctx.extra["real_model_diff"].append((c[2]["scenario"], m, c[2]["observed"]["done"], c[2]["observed"]["exit_after"]))
+        else:
+            ctx.cov["traces_validated_against_impl"] += 1
+    if diff:
+        m, c = diff[0]
+        ctx.broken.append("worker model vs real processes: %d of %d scenarios differ; first: %r (model conn/mode/alive %r, real done=%r)"
+                          % (len(diff), len(corr), c["scenario"], m, c["observed"]["done"]))
